@@ -15,6 +15,19 @@ type zzTok struct {
 	line  int
 	col   int
 	index int
+	// character offsets in the input, as ANTLR gives them: first and last character
+	// of the token (end of input: start = size of the input, stop = start - 1)
+	start, stop int
+}
+
+func (t *zzTok) GetStart() int { return t.start }
+func (t *zzTok) GetStop() int  { return t.stop }
+
+// zzPlace sets the offsets of a token of n characters starting at character offset start.
+func (t *zzTok) zzPlace(start, n int) *zzTok {
+	t.start = start
+	t.stop = start + n - 1
+	return t
 }
 
 func (t *zzTok) GetText() string    { return t.text }
@@ -91,7 +104,7 @@ func ZZC14Number(neg, nDigits string) {
 		limit = new(big.Int).Add(maxInt, big.NewInt(1))
 	}
 	zzvrt.Region("number-literal-beyond-machine-int", zzvrt.Lt(limit, val))
-	tk := &zzTok{text: text, line: 1, col: 0, index: 0}
+	tk := (&zzTok{text: text, line: 1, col: 0, index: 0}).zzPlace(0, len(text))
 	lit := parseNumberLiteral(&zzTermNode{tk: tk})
 	zzvrt.Assert(lit != nil, "C14:number-literal-converted")
 	if lit != nil {
@@ -113,7 +126,8 @@ func ZZC14SyntaxError(layout string) {
 	if layout == "none" {
 		sym = nil
 	} else {
-		sym = &zzTok{text: zzUTF8("t", layout), line: line, col: col}
+		// len(layout) characters, somewhere at or after (line, col) in the input
+		sym = (&zzTok{text: zzUTF8("t", layout), line: line, col: col}).zzPlace(zzvrt.Int("start", 0, 1<<40), len(layout))
 	}
 	l.SyntaxError(nil, sym, line, col, "msg", nil)
 	zzvrt.Assert(len(l.Errors) == 1, "C14:one-error-recorded")
@@ -156,7 +170,7 @@ func ZZC14Show(shape, tokLayout string) {
 		// ANTLR reports <EOF> at the end of the last line
 		lineIdx = len(lens) - 1
 		col = lens[lineIdx]
-		sym = &zzTok{text: "<EOF>", line: lineIdx + 1, col: col}
+		sym = (&zzTok{text: "<EOF>", line: lineIdx + 1, col: col}).zzPlace(len(src), 0)
 	} else {
 		nChars := len(tokLayout)
 		if lens[lineIdx] < nChars {
@@ -164,7 +178,11 @@ func ZZC14Show(shape, tokLayout string) {
 			return
 		}
 		col = zzvrt.Int("col", 0, lens[lineIdx]-nChars)
-		sym = &zzTok{text: zzUTF8("t", tokLayout), line: lineIdx + 1, col: col}
+		off := col
+		for i := 0; i < lineIdx; i++ {
+			off += lens[i] + 1
+		}
+		sym = (&zzTok{text: zzUTF8("t", tokLayout), line: lineIdx + 1, col: col}).zzPlace(off, nChars)
 	}
 	l.SyntaxError(nil, sym, lineIdx+1, col, "mismatched input", nil)
 	out := ParseErrorsToString(l.Errors, src)
